@@ -51,7 +51,7 @@ type c29Case struct {
 
 var c29Muts = []string{"outsider", "outsider", "recent", "recent", "diff-flip", "diff-flip", "diff-bad", "coinbase", "coinbase",
 	"extra-short", "extra-odd", "mix", "uncle", "gas-jump", "gas-used", "number", "unknown-parent", "badsig", "sig-v", "chainid",
-	"time-early", "epoch-force", "zero-sig", "recent-dist", "recent-dist"}
+	"time-early", "epoch-force", "zero-sig", "recent-dist", "recent-dist", "recent-other-coinbase", "recent-other-coinbase", "coinbase"}
 
 func genKeyList(t *rapid.T, label string, lo, hi int) []int {
 	return rapid.SliceOfNDistinct(rapid.IntRange(0, nSealerKeys-1), lo, hi, rapid.ID[int]).Draw(t, label)
@@ -136,6 +136,7 @@ func genC29(t *rapid.T) c29Case {
 			for d := 2; d <= wMax+1; d++ {
 				script = append(script, c29Op{Kind: "mut", Mut: "recent-dist", Arg: d, InTurn: rapid.Bool().Draw(t, "it")})
 			}
+			script = append(script, c29Op{Kind: "mut", Mut: "recent-other-coinbase", Arg: rapid.IntRange(0, 15).Draw(t, "roc"), Signer: h})
 			script = append(script, c29Op{Kind: "ext", InTurn: rapid.IntRange(0, 3).Draw(t, "ext-it") > 0, Signer: rapid.IntRange(0, 8).Draw(t, "ext-s")})
 		}
 		size = newSize
@@ -344,6 +345,21 @@ func (m *chainModel) buildOp(op c29Op, tip *node) (*types.Header, string) {
 		h.Difficulty = rightDiff(a)
 		resign(keyIndexOf(a))
 		label = fmt.Sprintf("mut:recent-dist:d=%d:%s:%s", d, windowClass(d, len(S), indexOfAddr(S, a) >= 0), m.phase(p, num))
+	case "recent-other-coinbase":
+		// sealed by a validator that sealed d = 1.. blocks back (inside the window when possible), with the sealer's right
+		// difficulty, but the miner field names another, non-recent validator
+		allowed, rec := m.allowedSigners(p)
+		if len(rec) == 0 {
+			return h, "mut:recent-other-coinbase:none-available"
+		}
+		a := rec[op.Arg%len(rec)]
+		claim := allowed[op.Signer%len(allowed)]
+		if op.Arg%5 == 0 {
+			claim = crypto.PubkeyToAddress(sealerKey((keyIndexOf(a) + 1) % nSealerKeys).PublicKey)
+		}
+		h.Coinbase = claim
+		h.Difficulty = rightDiff(a)
+		resign(keyIndexOf(a))
 	case "diff-flip":
 		h.Difficulty = big.NewInt(3 - h.Difficulty.Int64())
 		resign(ki)
@@ -360,6 +376,10 @@ func (m *chainModel) buildOp(op c29Op, tip *node) (*types.Header, string) {
 		}
 		h.Coinbase = other
 		h.Difficulty = rightDiff(other)
+		if op.Arg%2 == 1 {
+			h.Difficulty = rightDiff(sealerAddr(ki)) // difficulty of the real sealer, only the miner field lies
+			label += ":sealer-difficulty"
+		}
 		resign(ki) // sealed by ki, claims other
 	case "extra-short":
 		h.Extra = h.Extra[:[]int{0, 20, 31, 32, 64, 96}[op.Arg%6]]
